@@ -123,6 +123,8 @@ def case_dict(c):
 
 def fails(case, variant, par, reason_prefix=None):
     (ref, meta, rs), = run_cases([case], [variant])
+    if ref["stop"].startswith("notwf"):
+        return None
     for r in rs:
         if r["variant"] == variant and r["par"] == par:
             v = verdict(ref, r)
